@@ -9,9 +9,19 @@
 //
 //	plain columns, optional and repeated columns, bits-per-value settings,
 //	several row groups, deferred and gzip-compressed filters, WriteRowGroup
-//	from buffers and from other files (copy / re-encode / concatenation):
+//	from buffers and from other files (copy / re-encode / concatenation),
+//	write HISTORIES on one writer (rows left pending by WriteRows / CopyRows /
+//	ReadRowsFrom followed by Flush, WriteRowGroup of a buffer, of file row
+//	groups, of a MultiRowGroup / merge of file row groups or buffers, a
+//	concurrent row group, after Reset of a used writer):
 //	every written non-null value must Check true; the stored filter bytes
-//	are compared with the model's filter of the chunk's values;
+//	are compared with the model's filter of the chunk's values; every file
+//	is then re-opened under several option sets (filters loaded from the
+//	header, prefetched, skipped and loaded on demand; read buffers smaller
+//	and larger than the filters; optimistic reads; async mode; reader
+//	kinds) and the filter obtained through ColumnChunk.BloomFilter,
+//	BloomFilterFrom and the MultiRowGroup filter must report every written
+//	value present and expose the same bytes;
 //
 // (d) a vm_compute cross-check sample (cases.v).
 package main
@@ -22,7 +32,9 @@ import (
 	"encoding/hex"
 	"encoding/json"
 	"fmt"
+	"io"
 	"math"
+	"os"
 	"sort"
 	"strconv"
 	"strings"
@@ -71,7 +83,133 @@ type c07File struct {
 	SrcBits  bool         `json:"src_filters,omitempty"` // copy paths: the source file has the same filters
 	DstCodec string       `json:"dst_codec,omitempty"`
 
+	// path "history": the calls made on the one destination writer, in order
+	Steps     []c07Step `json:"steps,omitempty"`
+	Reenc     bool      `json:"reenc,omitempty"`      // history: the destination uses DstCodec (file row groups are re-encoded, not copied)
+	Reset     int       `json:"reset,omitempty"`      // history: the writer first wrote this many rows to another output, then Reset
+	ResetMode string    `json:"reset_mode,omitempty"` // state at Reset: "pending" (default) "flushed" "closed"
+
+	// the option sets under which the file is re-opened and every filter re-checked
+	Opens []c07Open `json:"opens,omitempty"`
+
 	keyCache string
+}
+
+// c07Step is one call (or group of calls) on the destination writer. The steps
+// consume the rows of the case in order; rows left over are written with
+// WriteRows before Close.
+type c07Step struct {
+	Op    string `json:"op"`              // rows flush buffer concurrent file multi merge multibuf copyrows readfrom
+	N     int    `json:"n,omitempty"`     // rows of the case consumed by the step
+	Parts int    `json:"parts,omitempty"` // row groups of the source file / number of buffers
+}
+
+// c07Open is one way of opening the file and of obtaining the filters.
+type c07Open struct {
+	Prefetch   bool   `json:"prefetch,omitempty"`   // PrefetchBloomFilters(true)
+	Skip       bool   `json:"skip,omitempty"`       // SkipBloomFilters(true): header and bits are read on the first BloomFilter call
+	Buf        int    `json:"buf,omitempty"`        // ReadBufferSize, 0 = default
+	Optimistic bool   `json:"optimistic,omitempty"` // OptimisticRead(true)
+	Async      bool   `json:"async,omitempty"`      // FileReadMode(ReadModeAsync)
+	NoIndex    bool   `json:"no_index,omitempty"`   // SkipPageIndex(true)
+	Reader     string `json:"reader,omitempty"`     // "" bytes.Reader, "eof" (reports io.EOF with the last byte), "file" (*os.File)
+	Via        string `json:"via,omitempty"`        // "" ColumnChunk.BloomFilter, "from" BloomFilterFrom(another reader), "multi" MultiRowGroup(all row groups) column filter
+}
+
+func (o c07Open) String() string {
+	b, _ := json.Marshal(o)
+	return string(b)
+}
+
+func (o c07Open) load() string {
+	switch {
+	case o.Skip:
+		return "on-demand"
+	case o.Prefetch:
+		return "prefetched"
+	}
+	return "header-at-open"
+}
+
+func (o c07Open) bufClass() string {
+	switch {
+	case o.Buf == 0:
+		return "buf-default"
+	case o.Buf < 4096:
+		return "buf-small"
+	}
+	return "buf-large"
+}
+
+func (o c07Open) options() []parquet.FileOption {
+	var fo []parquet.FileOption
+	if o.Prefetch {
+		fo = append(fo, parquet.PrefetchBloomFilters(true))
+	}
+	if o.Skip {
+		fo = append(fo, parquet.SkipBloomFilters(true))
+	}
+	if o.Buf > 0 {
+		fo = append(fo, parquet.ReadBufferSize(o.Buf))
+	}
+	if o.Optimistic {
+		fo = append(fo, parquet.OptimisticRead(true))
+	}
+	if o.Async {
+		fo = append(fo, parquet.FileReadMode(parquet.ReadModeAsync))
+	}
+	if o.NoIndex {
+		fo = append(fo, parquet.SkipPageIndex(true))
+	}
+	return fo
+}
+
+// c07EOFReader is a valid io.ReaderAt that reports io.EOF together with the
+// last byte of the data (which the contract allows).
+type c07EOFReader struct{ data []byte }
+
+func (r c07EOFReader) ReadAt(p []byte, off int64) (int, error) {
+	if off < 0 || off >= int64(len(r.data)) {
+		return 0, io.EOF
+	}
+	n := copy(p, r.data[off:])
+	if n < len(p) || off+int64(n) == int64(len(r.data)) {
+		return n, io.EOF
+	}
+	return n, nil
+}
+
+// open opens data under the option set; done releases what was created.
+func (o c07Open) open(data []byte) (f *parquet.File, done func(), err error) {
+	defer func() {
+		if r := recover(); r != nil {
+			err = fmt.Errorf("panic: %v", r)
+		}
+	}()
+	done = func() {}
+	var r io.ReaderAt = bytes.NewReader(data)
+	switch o.Reader {
+	case "eof":
+		r = c07EOFReader{data}
+	case "file":
+		tmp, terr := os.CreateTemp("", "c07-*.parquet")
+		if terr != nil {
+			break // no temporary directory: keep the in-memory reader
+		}
+		done = func() { tmp.Close(); os.Remove(tmp.Name()) }
+		if _, terr := tmp.Write(data); terr != nil {
+			done()
+			done = func() {}
+			break
+		}
+		r = tmp
+	}
+	f, err = parquet.OpenFile(r, int64(len(data)), o.options()...)
+	if err != nil {
+		done()
+		done = func() {}
+	}
+	return f, done, err
 }
 
 type c07Hash struct {
@@ -441,6 +579,8 @@ func c07Write(cs *c07File) (out []byte, copied int64, err error) {
 			return nil, 0, err
 		}
 		return buf.Bytes(), 0, nil
+	case "history":
+		return cs.writeHistory()
 	}
 	// paths that start from another file
 	var src bytes.Buffer
@@ -487,6 +627,200 @@ func c07Write(cs *c07File) (out []byte, copied int64, err error) {
 		}
 	default:
 		return nil, 0, fmt.Errorf("unknown path %q", cs.Path)
+	}
+	if err := w.Close(); err != nil {
+		return nil, 0, err
+	}
+	return buf.Bytes(), parquet.VerifCopyPathCount() - before, nil
+}
+
+// sourceFile writes rows lo..hi to a file of their own in `parts` row groups
+// (Flush between them) and opens it.
+func (cs *c07File) sourceFile(lo, hi, parts int) (*parquet.File, error) {
+	var src bytes.Buffer
+	sw := parquet.NewWriter(&src, cs.options(cs.SrcBits, cs.Codec)...)
+	if parts < 1 {
+		parts = 1
+	}
+	for k := 0; k < parts; k++ {
+		a, b := lo+(hi-lo)*k/parts, lo+(hi-lo)*(k+1)/parts
+		if a == b {
+			continue
+		}
+		if _, err := sw.WriteRows(c07MakeRows(cs, a, b)); err != nil {
+			return nil, fmt.Errorf("source file: %w", err)
+		}
+		if err := sw.Flush(); err != nil {
+			return nil, fmt.Errorf("source file: %w", err)
+		}
+	}
+	if err := sw.Close(); err != nil {
+		return nil, fmt.Errorf("source file: %w", err)
+	}
+	sf, err := parquet.OpenFile(bytes.NewReader(src.Bytes()), int64(src.Len()))
+	if err != nil {
+		return nil, fmt.Errorf("source file: %w", err)
+	}
+	return sf, nil
+}
+
+// writeHistory replays the steps of the case on one destination writer. Every
+// step appends its rows after those of the steps before it, so the file holds
+// the rows of the case in order whatever the steps are.
+func (cs *c07File) writeHistory() ([]byte, int64, error) {
+	var buf, scratch bytes.Buffer
+	dstCodec := cs.Codec
+	if cs.Reenc {
+		dstCodec = cs.DstCodec
+	}
+	var w *parquet.Writer
+	if cs.Reset > 0 {
+		// a used writer: rows of the case went to another output first
+		w = parquet.NewWriter(&scratch, cs.options(true, dstCodec)...)
+		k := cs.Reset
+		if k > len(cs.Rows) {
+			k = len(cs.Rows)
+		}
+		if _, err := w.WriteRows(c07MakeRows(cs, 0, k)); err != nil {
+			return nil, 0, fmt.Errorf("before Reset: %w", err)
+		}
+		switch cs.ResetMode {
+		case "flushed":
+			if err := w.Flush(); err != nil {
+				return nil, 0, fmt.Errorf("before Reset: %w", err)
+			}
+		case "closed":
+			if err := w.Close(); err != nil {
+				return nil, 0, fmt.Errorf("before Reset: %w", err)
+			}
+		}
+		w.Reset(&buf)
+	} else {
+		w = parquet.NewWriter(&buf, cs.options(true, dstCodec)...)
+	}
+	before := parquet.VerifCopyPathCount()
+	writeRows := func(lo, hi int) error {
+		batch := cs.Batch
+		if batch <= 0 {
+			batch = 17
+		}
+		for i := lo; i < hi; i += batch {
+			j := i + batch
+			if j > hi {
+				j = hi
+			}
+			if _, err := w.WriteRows(c07MakeRows(cs, i, j)); err != nil {
+				return err
+			}
+		}
+		return nil
+	}
+	pos := 0
+	for si, st := range cs.Steps {
+		fail := func(err error) ([]byte, int64, error) {
+			return nil, 0, fmt.Errorf("step %d (%s): %w", si, st.Op, err)
+		}
+		if st.Op == "flush" {
+			if err := w.Flush(); err != nil {
+				return fail(err)
+			}
+			continue
+		}
+		lo, hi := pos, pos+st.N
+		if hi > len(cs.Rows) {
+			hi = len(cs.Rows)
+		}
+		if hi <= lo {
+			continue
+		}
+		pos = hi
+		parts := st.Parts
+		if parts < 1 {
+			parts = 1
+		}
+		switch st.Op {
+		case "rows":
+			if err := writeRows(lo, hi); err != nil {
+				return fail(err)
+			}
+		case "buffer":
+			b := parquet.NewBuffer(c07Schema(cs.Cols))
+			if _, err := b.WriteRows(c07MakeRows(cs, lo, hi)); err != nil {
+				return fail(err)
+			}
+			if _, err := w.WriteRowGroup(b); err != nil {
+				return fail(err)
+			}
+		case "multibuf":
+			var rgs []parquet.RowGroup
+			for k := 0; k < parts; k++ {
+				a, z := lo+(hi-lo)*k/parts, lo+(hi-lo)*(k+1)/parts
+				if a == z {
+					continue
+				}
+				b := parquet.NewBuffer(c07Schema(cs.Cols))
+				if _, err := b.WriteRows(c07MakeRows(cs, a, z)); err != nil {
+					return fail(err)
+				}
+				rgs = append(rgs, b)
+			}
+			if _, err := w.WriteRowGroup(parquet.MultiRowGroup(rgs...)); err != nil {
+				return fail(err)
+			}
+		case "concurrent":
+			rg := w.BeginRowGroup()
+			if _, err := rg.WriteRows(c07MakeRows(cs, lo, hi)); err != nil {
+				return fail(err)
+			}
+			if _, err := rg.Commit(); err != nil {
+				return fail(err)
+			}
+		case "file", "multi", "merge", "copyrows", "readfrom":
+			sf, err := cs.sourceFile(lo, hi, parts)
+			if err != nil {
+				return fail(err)
+			}
+			switch st.Op {
+			case "file":
+				for _, rg := range sf.RowGroups() {
+					if _, err := w.WriteRowGroup(rg); err != nil {
+						return fail(err)
+					}
+				}
+			case "multi":
+				if _, err := w.WriteRowGroup(parquet.MultiRowGroup(sf.RowGroups()...)); err != nil {
+					return fail(err)
+				}
+			case "merge":
+				m, err := parquet.MergeRowGroups(sf.RowGroups())
+				if err != nil {
+					return fail(err)
+				}
+				if _, err := w.WriteRowGroup(m); err != nil {
+					return fail(err)
+				}
+			case "copyrows", "readfrom":
+				for _, rg := range sf.RowGroups() {
+					rows := rg.Rows()
+					if st.Op == "copyrows" {
+						_, err = parquet.CopyRows(w, rows)
+					} else {
+						_, err = w.ReadRowsFrom(rows)
+					}
+					rows.Close()
+					if err != nil {
+						return fail(err)
+					}
+				}
+			}
+		default:
+			return fail(fmt.Errorf("unknown step"))
+		}
+	}
+	if pos < len(cs.Rows) {
+		if err := writeRows(pos, len(cs.Rows)); err != nil {
+			return nil, 0, err
+		}
 	}
 	if err := w.Close(); err != nil {
 		return nil, 0, err
@@ -543,14 +877,17 @@ func (r *c07Rep) mismatch(corr, cs, impl, model string, replay any) {
 }
 
 type c07Chunk struct {
-	RowGroup int
-	Col      int
-	Orig     [][]byte   // non-null values handed to the writer for this chunk
-	Pages    [][][]byte // non-null values read back, per data page
-	Filter   []byte     // stored filter bytes (decompressed), nil if no filter
-	NumVals  int64
-	DictEnc  bool // some page is dictionary-encoded
-	PlainEnc bool // some page is not
+	RowGroup  int
+	Col       int
+	Orig      [][]byte   // non-null values handed to the writer for this chunk
+	Pages     [][][]byte // non-null values read back, per data page
+	Filter    []byte     // stored filter bytes (decompressed), nil if no filter
+	Stored    []byte     // filter bytes as exposed by ReadAt (compressed if the filter is)
+	Distinct  [][]byte   // distinct values of Orig
+	HasFilter bool
+	NumVals   int64
+	DictEnc   bool // some page is dictionary-encoded
+	PlainEnc  bool // some page is not
 }
 
 // c07Verify opens the file and evaluates the property on every chunk that
@@ -562,11 +899,8 @@ func c07Verify(rep *c07Rep, cs *c07File, data []byte, copied int64, one int) boo
 		ok = false
 		rep.violation(class, what, cs)
 	}
-	var fopts []parquet.FileOption
-	if cs.Prefetch {
-		fopts = append(fopts, parquet.PrefetchBloomFilters(true))
-	}
-	f, err := parquet.OpenFile(bytes.NewReader(data), int64(len(data)), fopts...)
+	var chunks []*c07Chunk
+	f, _, err := c07Open{Prefetch: cs.Prefetch}.open(data)
 	if err != nil {
 		fail("file-open-error", "the written file cannot be opened: "+err.Error())
 		return false
@@ -586,7 +920,8 @@ func c07Verify(rep *c07Rep, cs *c07File, data []byte, copied int64, one int) boo
 			if col.Bits == 0 || (one >= 0 && one != ci) {
 				continue
 			}
-			ch := c07Chunk{RowGroup: g, Col: ci}
+			ch := &c07Chunk{RowGroup: g, Col: ci}
+			chunks = append(chunks, ch)
 			for r := off; r < off+n; r++ {
 				for _, v := range cs.Rows[r][ci] {
 					ch.Orig = append(ch.Orig, unhex(v))
@@ -656,6 +991,7 @@ func c07Verify(rep *c07Rep, cs *c07File, data []byte, copied int64, one int) boo
 					continue
 				}
 				seen[string(b)] = true
+				ch.Distinct = append(ch.Distinct, b)
 				if rep.record {
 					c.Res.Evaluations++
 				}
@@ -693,6 +1029,7 @@ func c07Verify(rep *c07Rep, cs *c07File, data []byte, copied int64, one int) boo
 				fail("filter-read-error", err.Error())
 				continue
 			}
+			ch.Stored, ch.HasFilter = append([]byte(nil), raw...), true
 			if cs.Gzip || (len(raw) >= 2 && raw[0] == 0x1f && raw[1] == 0x8b && len(raw)%32 != 0) {
 				dec, err := parquet.Gzip.Decode(nil, raw)
 				if err != nil {
@@ -706,13 +1043,147 @@ func c07Verify(rep *c07Rep, cs *c07File, data []byte, copied int64, one int) boo
 				fail("filter-size", fmt.Sprintf("filter of %d bytes is not a positive multiple of the block size", len(raw)))
 				continue
 			}
-			c07Model(rep, cs, col, &ch, copied, check)
+			c07Model(rep, cs, col, ch, copied, check)
 			if rep.record {
 				key := fmt.Sprintf("%s/%s/%s/%s", cs.Path, col.Type, col.Rep, col.Enc)
 				c.Case("file/"+key, fmt.Sprintf("%s|%d|%d", cs.key(), g, ci), len(seen) >= 2)
 			}
 		}
 		off += n
+	}
+	if !ok {
+		return false
+	}
+	// the same file under every other way of opening it and of obtaining the filters
+	for _, o := range cs.Opens {
+		if !c07VerifyOpen(rep, cs, data, o, chunks) {
+			return false
+		}
+	}
+	return ok
+}
+
+// c07VerifyOpen re-opens the file under one option set and evaluates the
+// property on the filters obtained that way: every value handed to the writer
+// for a chunk must be reported present; the filter must expose the bytes it
+// exposed under the default options.
+func c07VerifyOpen(rep *c07Rep, cs *c07File, data []byte, o c07Open, chunks []*c07Chunk) (ok bool) {
+	c := rep.c
+	ok = true
+	fail := func(class, what string) {
+		ok = false
+		rep.violation(class, what, cs)
+	}
+	defer func() {
+		if r := recover(); r != nil {
+			fail("read-panic", fmt.Sprintf("opened with %v: %v", o, r))
+		}
+	}()
+	f, done, err := o.open(data)
+	if err != nil {
+		fail("file-open-error", fmt.Sprintf("the written file cannot be opened with %v: %v", o, err))
+		return false
+	}
+	defer done()
+	rgs := f.RowGroups()
+	var multi parquet.RowGroup
+	if o.Via == "multi" {
+		if len(rgs) == 0 {
+			return true
+		}
+		multi = parquet.MultiRowGroup(rgs...)
+		// the filter of the concatenated column answers for the chunks that have
+		// a filter: it is only comparable when every chunk with values has one
+		for _, ch := range chunks {
+			if len(ch.Distinct) > 0 && !ch.HasFilter {
+				return true
+			}
+		}
+	}
+	other := bytes.NewReader(data)
+	multiBytes := map[int][]byte{}
+	for _, ch := range chunks {
+		if !ch.HasFilter || ch.RowGroup >= len(rgs) {
+			continue
+		}
+		col := cs.Cols[ch.Col]
+		var bf parquet.BloomFilter
+		switch o.Via {
+		case "multi":
+			bf = multi.ColumnChunks()[ch.Col].BloomFilter()
+			if _, seen := multiBytes[ch.Col]; !seen {
+				var all []byte
+				for _, x := range chunks {
+					if x.Col == ch.Col {
+						all = append(all, x.Stored...)
+					}
+				}
+				multiBytes[ch.Col] = all
+			}
+		case "from":
+			fc, isFile := rgs[ch.RowGroup].ColumnChunks()[ch.Col].(*parquet.FileColumnChunk)
+			if !isFile {
+				continue
+			}
+			ff, ferr := fc.BloomFilterFrom(other)
+			if ferr != nil {
+				fail("filter-missing", fmt.Sprintf("opened with %v: row group %d column %d: BloomFilterFrom: %v", o, ch.RowGroup, ch.Col, ferr))
+				return false
+			}
+			bf = ff
+		default:
+			bf = rgs[ch.RowGroup].ColumnChunks()[ch.Col].BloomFilter()
+		}
+		if bf == nil {
+			fail("filter-missing", fmt.Sprintf("opened with %v: row group %d column %d has no filter, although it has one under the default options", o, ch.RowGroup, ch.Col))
+			return false
+		}
+		for _, b := range ch.Distinct {
+			if rep.record {
+				c.Res.Evaluations++
+			}
+			var res bool
+			var cerr error
+			func() {
+				defer func() {
+					if r := recover(); r != nil {
+						cerr = fmt.Errorf("panic: %v", r)
+					}
+				}()
+				res, cerr = bf.Check(col.value(b))
+			}()
+			if cerr != nil {
+				fail("check-error", fmt.Sprintf("opened with %v: row group %d column %d (%s): Check failed: %v", o, ch.RowGroup, ch.Col, col.Type, cerr))
+				return false
+			}
+			if !res {
+				fail("written-value-absent", fmt.Sprintf("path %s, opened with %v: row group %d, column %d (%s %s %s, %d bits/value): value %x was written but BloomFilter.Check answers false (filter of %d bytes; present under the default options)",
+					cs.Path, o, ch.RowGroup, ch.Col, col.Type, col.Rep, col.Enc, col.Bits, b, bf.Size()))
+				return false
+			}
+		}
+		// the bytes
+		want := ch.Stored
+		if o.Via == "multi" {
+			want = multiBytes[ch.Col]
+		}
+		got := make([]byte, bf.Size())
+		if _, err := bf.ReadAt(got, 0); err != nil && err != io.EOF && len(got) > 0 {
+			fail("filter-read-error", fmt.Sprintf("opened with %v: %v", o, err))
+			return false
+		}
+		if !bytes.Equal(got, want) {
+			rep.mismatch("corr:C07.filter_by_open_mode", fmt.Sprintf("path %s rg %d col %d %s opened with %v", cs.Path, ch.RowGroup, ch.Col, col.tyTok(), o), core.Trunc(core.Hexs(got), 600), core.Trunc(core.Hexs(want), 600), cs)
+			return false
+		}
+	}
+	if rep.record {
+		c.Case("open/"+o.load()+"/"+o.bufClass(), cs.key()+"|"+o.String(), true)
+		for name, on := range map[string]bool{"optimistic": o.Optimistic, "async": o.Async, "no-page-index": o.NoIndex, "reader-" + o.Reader: o.Reader != "", "via-" + o.Via: o.Via != ""} {
+			if on {
+				c.Res.Buckets["open/"+name]++
+			}
+		}
 	}
 	return ok
 }
@@ -905,7 +1376,11 @@ func c07FileCase(c *core.Ctx, cs *c07File) bool {
 }
 
 func c07Shrink(c *core.Ctx, cs *c07File, class string) *c07File {
+	deadline := time.Now().Add(25 * time.Second)
 	fails := func(t *c07File) bool {
+		if time.Now().After(deadline) {
+			return false
+		}
 		t.keyCache = ""
 		rep := &c07Rep{c: c, collect: true}
 		c07RunFile(rep, t, -1)
@@ -929,6 +1404,91 @@ func c07Shrink(c *core.Ctx, cs *c07File, class string) *c07File {
 			if fails(&t) {
 				cur = t
 				break
+			}
+		}
+	}
+	// one way of opening the file, then its plainest form
+	if len(cur.Opens) > 0 {
+		t := cur
+		t.Opens = nil
+		if fails(&t) {
+			cur = t
+		} else {
+			for _, o := range cur.Opens {
+				t := cur
+				t.Opens = []c07Open{o}
+				if fails(&t) {
+					cur = t
+					break
+				}
+			}
+		}
+	}
+	if len(cur.Opens) == 1 {
+		for _, f := range []func(o *c07Open){
+			func(o *c07Open) { o.Via = "" },
+			func(o *c07Open) { o.Reader = "" },
+			func(o *c07Open) { o.Async = false },
+			func(o *c07Open) { o.NoIndex = false },
+			func(o *c07Open) { o.Optimistic = false },
+			func(o *c07Open) { o.Skip = false },
+			func(o *c07Open) { o.Prefetch = false },
+			func(o *c07Open) { o.Buf = 0 },
+		} {
+			t := cur
+			o := cur.Opens[0]
+			f(&o)
+			t.Opens = []c07Open{o}
+			if fails(&t) {
+				cur = t
+			}
+		}
+	}
+	// a shorter history: no Reset, steps dropped with their rows
+	if cur.Path == "history" {
+		for _, f := range []func(t *c07File){
+			func(t *c07File) { t.Reset, t.ResetMode = 0, "" },
+			func(t *c07File) { t.Reenc = false },
+			func(t *c07File) { t.SrcBits = false },
+		} {
+			t := cur
+			f(&t)
+			if fails(&t) {
+				cur = t
+			}
+		}
+		for si := len(cur.Steps) - 1; si >= 0 && len(cur.Steps) > 1; si-- {
+			lo := 0
+			for _, st := range cur.Steps[:si] {
+				if st.Op != "flush" {
+					lo += st.N
+				}
+			}
+			n := cur.Steps[si].N
+			if cur.Steps[si].Op == "flush" {
+				n = 0
+			}
+			if lo+n > len(cur.Rows) {
+				n = len(cur.Rows) - lo
+			}
+			if n < 0 || len(cur.Rows)-n < 1 {
+				continue
+			}
+			t := cur
+			t.Steps = append(append([]c07Step(nil), cur.Steps[:si]...), cur.Steps[si+1:]...)
+			t.Rows = append(append([][][]string(nil), cur.Rows[:lo]...), cur.Rows[lo+n:]...)
+			if fails(&t) {
+				cur = t
+			}
+		}
+		for si := range cur.Steps {
+			if cur.Steps[si].Parts > 2 {
+				t := cur
+				t.Steps = append([]c07Step(nil), cur.Steps...)
+				t.Steps[si].Parts = 2
+				if fails(&t) {
+					cur = t
+				}
 			}
 		}
 	}
@@ -965,6 +1525,22 @@ func c07Shrink(c *core.Ctx, cs *c07File, class string) *c07File {
 					t.Flush = append(t.Flush, f)
 				} else if f >= i+chunk {
 					t.Flush = append(t.Flush, f-chunk)
+				}
+			}
+			if len(cur.Steps) > 0 {
+				// the steps keep the rows that are left of theirs
+				t.Steps = append([]c07Step(nil), cur.Steps...)
+				lo := 0
+				for si := range t.Steps {
+					if t.Steps[si].Op == "flush" {
+						continue
+					}
+					hi := lo + t.Steps[si].N
+					a, b := max(lo, i), min(hi, i+chunk)
+					if b > a {
+						t.Steps[si].N -= b - a
+					}
+					lo = hi
 				}
 			}
 			if fails(&t) {
@@ -1065,12 +1641,17 @@ func c07GenCol(c *core.Ctx, typ string) c07Col {
 
 var c07Types = []string{"bool", "i32", "i64", "i96", "f32", "f64", "ba", "flba"}
 
-func c07GenRows(c *core.Ctx, cols []c07Col, n int) [][][]string {
+// c07GenRows generates n rows; domain > 0 fixes the size of the value domain
+// of every column (otherwise it is drawn per column).
+func c07GenRows(c *core.Ctx, cols []c07Col, n, domain int) [][][]string {
 	r := c.Rng
 	rows := make([][][]string, n)
 	domains := make([]int, len(cols))
 	for i := range cols {
 		domains[i] = []int{2, 5, 20, 200, 5000}[r.Intn(5)]
+		if domain > 0 {
+			domains[i] = domain
+		}
 	}
 	for i := range rows {
 		rows[i] = make([][]string, len(cols))
@@ -1115,7 +1696,7 @@ func c07GenFile(c *core.Ctx, i int) *c07File {
 	if !c.Quick() && r.Intn(6) == 0 {
 		n = 2500
 	}
-	cs.Rows = c07GenRows(c, cs.Cols, n)
+	cs.Rows = c07GenRows(c, cs.Cols, n, 0)
 	paths := []string{"rows", "rows", "buffer", "copy", "reencode", "concat", "copyrows"}
 	cs.Path = paths[i%len(paths)]
 	cs.Batch = []int{1, 7, 64, 1000}[r.Intn(4)]
@@ -1141,6 +1722,161 @@ func c07GenFile(c *core.Ctx, i int) *c07File {
 		// dictionary columns fall back to PLAIN once the dictionary outgrows the limit
 		cs.DictMax = []int64{16, 64, 256, 2048}[r.Intn(4)]
 	}
+	cs.Opens = c07GenOpens(c, false)
+	return cs
+}
+
+// c07GenOpens: every file is re-opened with its filters loaded in each of the
+// three ways (header parsed at open and bits read by Check, bits prefetched at
+// open, nothing at open and everything on the first BloomFilter call) plus one
+// more draw; read buffer size (smaller than any filter .. larger than the
+// file), optimistic reads, async mode, page index, reader kind and the way
+// the filter is reached are drawn independently for each.
+func c07GenOpens(c *core.Ctx, big bool) []c07Open {
+	r := c.Rng
+	var out []c07Open
+	for k := 0; k < 4; k++ {
+		o := c07Open{Prefetch: k == 1 || (k == 3 && r.Intn(2) == 0), Skip: k == 2 || (k == 3 && r.Intn(3) == 0)}
+		o.Buf = []int{0, 0, 16, 64, 512, 1 << 20}[r.Intn(6)]
+		if big {
+			// filters of several KiB against the default 4 KiB buffer and its neighbours
+			o.Buf = []int{0, 0, 0, 512, 8192, 1 << 20}[r.Intn(6)]
+		}
+		o.Optimistic = r.Intn(3) == 0
+		o.Async = r.Intn(5) == 0
+		o.NoIndex = r.Intn(5) == 0
+		o.Reader = []string{"", "", "", "eof", "eof", "file"}[r.Intn(6)]
+		o.Via = []string{"", "", "", "from", "multi"}[r.Intn(5)]
+		out = append(out, o)
+	}
+	return out
+}
+
+// the operations that leave rows pending in the writer, and those that may follow
+var c07PendingOps = []string{"rows", "copyrows", "readfrom"}
+var c07NextOps = []string{"flush", "rows", "buffer", "concurrent", "file", "multi", "merge", "multibuf", "close"}
+
+// c07GenSteps draws a history over n rows. pair >= 0 fixes the first two
+// steps to the pair-th combination (pending operation, following operation).
+func c07GenSteps(c *core.Ctx, n, pair int) []c07Step {
+	r := c.Rng
+	var steps []c07Step
+	left := n
+	add := func(op string, last bool) {
+		if op == "flush" {
+			steps = append(steps, c07Step{Op: op})
+			return
+		}
+		if left == 0 {
+			return
+		}
+		m := left
+		if !last && left > 1 {
+			m = 1 + r.Intn(left)
+			if r.Intn(2) == 0 {
+				m = 1 + r.Intn(1+left/2)
+			}
+		}
+		steps = append(steps, c07Step{Op: op, N: m, Parts: 1 + r.Intn(3)})
+		left -= m
+	}
+	if pair >= 0 {
+		add(c07PendingOps[pair%len(c07PendingOps)], false)
+		next := c07NextOps[(pair/len(c07PendingOps))%len(c07NextOps)]
+		if next == "close" {
+			steps[0].N, left = n, 0
+			return steps
+		}
+		add(next, false)
+	}
+	ops := []string{"rows", "rows", "rows", "copyrows", "readfrom", "flush", "buffer", "concurrent", "file", "multi", "multi", "merge", "multibuf"}
+	for k := r.Intn(4); k > 0 && left > 0; k-- {
+		add(ops[r.Intn(len(ops))], k == 1 && r.Intn(2) == 0)
+	}
+	return steps // rows left over are written with WriteRows before Close
+}
+
+// c07GenHistory: a file produced by a history of calls on one writer. The
+// columns are a draw of three to five types so that many histories can run.
+func c07GenHistory(c *core.Ctx, i int) *c07File {
+	r := c.Rng
+	cs := &c07File{Kind: "file", Path: "history"}
+	perm := r.Perm(len(c07Types))
+	for _, t := range perm[:3+r.Intn(3)] {
+		cs.Cols = append(cs.Cols, c07GenCol(c, c07Types[t]))
+	}
+	if r.Intn(5) == 0 {
+		cs.Cols[r.Intn(len(cs.Cols))].Bits = 0
+	}
+	n := []int{2, 9, 40, 130, 300, 700}[r.Intn(6)]
+	cs.Rows = c07GenRows(c, cs.Cols, n, 0)
+	cs.Steps = c07GenSteps(c, n, i)
+	cs.Batch = []int{1, 7, 64, 1000}[r.Intn(4)]
+	// small pages: rows left pending have already produced pages
+	cs.PageBuf = []int{0, 64, 64, 256, 256, 4096}[r.Intn(6)]
+	if r.Intn(4) == 0 {
+		cs.MaxRows = int64(1 + r.Intn(n))
+	}
+	cs.V1 = r.Intn(3) == 0
+	cs.Codec = []string{"", "snappy", "zstd", "gzip"}[r.Intn(4)]
+	cs.DstCodec = []string{"", "snappy", "zstd"}[r.Intn(3)]
+	if cs.DstCodec == cs.Codec {
+		cs.DstCodec = "gzip"
+	}
+	cs.Reenc = r.Intn(3) == 0
+	cs.Gzip = r.Intn(4) == 0
+	cs.Deferred = r.Intn(4) == 0
+	cs.Prefetch = r.Intn(3) == 0
+	cs.SrcBits = r.Intn(3) != 0
+	if r.Intn(6) == 0 {
+		cs.DictMax = []int64{16, 64, 256, 2048}[r.Intn(4)]
+	}
+	if r.Intn(4) == 0 {
+		cs.Reset = 1 + r.Intn(n)
+		cs.ResetMode = []string{"pending", "flushed", "closed"}[r.Intn(3)]
+	}
+	cs.Opens = c07GenOpens(c, false)
+	return cs
+}
+
+// c07GenBig: one or two columns with thousands of distinct values, so that the
+// filters (several KiB, up to tens of KiB at 32 bits per value) are larger
+// than the default read buffer and than several pages.
+func c07GenBig(c *core.Ctx, i int) *c07File {
+	r := c.Rng
+	cs := &c07File{Kind: "file"}
+	perm := r.Perm(len(c07Types))
+	for _, t := range perm[:1+r.Intn(2)] {
+		typ := c07Types[t]
+		if typ == "bool" {
+			typ = "i64"
+		}
+		col := c07GenCol(c, typ)
+		col.Bits = []uint{10, 10, 16, 32}[r.Intn(4)]
+		if col.Rep == "repeated" && r.Intn(2) == 0 {
+			col.Rep = "required"
+		}
+		cs.Cols = append(cs.Cols, col)
+	}
+	n := 1500 + r.Intn(c.N(3000, 9000))
+	cs.Rows = c07GenRows(c, cs.Cols, n, 4*n)
+	cs.Path = []string{"rows", "history", "buffer", "copy", "reencode", "concat"}[i%6]
+	if cs.Path == "history" {
+		cs.Steps = c07GenSteps(c, n, -1)
+	}
+	cs.Batch = []int{64, 1000}[r.Intn(2)]
+	for k := r.Intn(3); k > 0; k-- {
+		cs.Flush = append(cs.Flush, 1+r.Intn(n-1))
+	}
+	sort.Ints(cs.Flush)
+	cs.PageBuf = []int{0, 1024, 4096}[r.Intn(3)]
+	cs.V1 = r.Intn(3) == 0
+	cs.Codec = []string{"", "snappy"}[r.Intn(2)]
+	cs.DstCodec = "zstd"
+	cs.Gzip = r.Intn(3) == 0
+	cs.Deferred = r.Intn(3) == 0
+	cs.SrcBits = r.Intn(2) == 0
+	cs.Opens = c07GenOpens(c, true)
 	return cs
 }
 
@@ -1692,6 +2428,23 @@ func runC07(c *core.Ctx) {
 			c.Sample(map[string]any{"kind": "file", "path": cs.Path, "cols": cs.Cols, "rows": len(cs.Rows)})
 		}
 	}
+	tHist := time.Now()
+	// histories: every (pending operation, following operation) pair in turn, then free draws
+	nHist := c.N(81, 324)
+	for i := 0; i < nHist; i++ {
+		cs := c07GenHistory(c, i)
+		c07FileCase(c, cs)
+		if i == 5 {
+			c.Sample(map[string]any{"kind": "file", "path": cs.Path, "cols": cs.Cols, "rows": len(cs.Rows), "steps": cs.Steps, "opens": cs.Opens})
+		}
+	}
+	t4 := time.Now()
+	// filters larger than the read buffer
+	nBig := c.N(6, 36)
+	for i := 0; i < nBig; i++ {
+		c07FileCase(c, c07GenBig(c, i))
+	}
+	c.Note("time: %d history files %.1fs, %d large-filter files %.1fs", nHist, t4.Sub(tHist).Seconds(), nBig, time.Since(t4).Seconds())
 	c.Note("chunks whose configured filter was not written (no non-null value or not produced on that path): %d; chunks copied verbatim: %d", c.Res.Buckets["file/no-filter-written"], c.Res.Buckets["file/chunks-copied-verbatim"])
 
 	c.Vm("From Coq Require Import List NArith Bool Arith.\nFrom PQ Require Import Bloom.XXHash Bloom.Filter Bloom.Hashing.\nImport ListNotations.\nOpen Scope N_scope.")
